@@ -255,6 +255,38 @@ func TestOnce(t *testing.T) {
 					}
 				}
 			})
+		// the error path: the body panics when it runs. It has been executed all the same - "at most once"
+		// holds for a body that fails exactly as for one that returns (what later calls return or whether they
+		// panic again is not promised and not looked at).
+		kit.Check(t, m.name+"/once-after-panic", "memoised func() int whose body panics on its first execution (and would return on a later one); called 2..6 times sequentially, every call recovered, then from G in 0..8 goroutines at once; oracle: counters only - the body executed <= 1 times; every case non-trivial; distinct by (calls, G)",
+			kit.Opt{Weight: 0.25}, func(rt *rapid.T, rec *kit.Rec) {
+				R := rapid.IntRange(2, 6).Draw(rt, "calls")
+				G := rapid.IntRange(0, 8).Draw(rt, "G")
+				rec.Case(true, fmt.Sprintf("calls=%d G=%d", R, G))
+				var cnt atomic.Int32
+				mf := m.mk(func() int {
+					if cnt.Add(1) == 1 {
+						panic("boom: the memoised body fails")
+					}
+					return 7
+				})
+				call := func() {
+					defer func() { _ = recover() }()
+					mf()
+				}
+				for i := 0; i < R; i++ {
+					call()
+					if cnt.Load() > 1 {
+						rec.Failf(rt, sig+"|once-after-panic", "body executed %d times after %d sequential calls, the first of which panicked", cnt.Load(), i+1)
+					}
+				}
+				if G > 0 {
+					parallel(G, func(int) { call() })
+					if cnt.Load() > 1 {
+						rec.Failf(rt, sig+"|once-after-panic", "body executed %d times: it panicked on its first execution and was then requested by %d goroutines", cnt.Load(), G)
+					}
+				}
+			})
 	}
 
 	listOnce(t)
